@@ -187,12 +187,17 @@ def _ctparse(
         logger.debug("time in _regex_stack: {:.0f}ms".format(1000 * _ts))
 
         # add empty production path + counter of contained regex
-        stack = [PartialParse.from_regex_matches(s) for s in regex_stack]
+        stack = []
         # TODO: the score should be kept separate from the partial parse
         # because it depends also on the text and the ts. A good idea is
         # to create a namedtuple of kind StackElement(partial_parse, score)
-        for pp in stack:
+        for s in regex_stack:
+            # there can be exponentially many candidate sequences: re-check
+            # the deadline before analysing (rule pre-filter + score) each one
+            t_fun()
+            pp = PartialParse.from_regex_matches(s)
             pp.score = scorer.score(txt, ts, pp)
+            stack.append(pp)
 
         logger.debug("initial stack length: {}".format(len(stack)))
         # sort stack by length of covered string and - if that is equal - score
